@@ -34,7 +34,7 @@ static void viol(const std::string& key, const std::string& detail)
 
 static int val(std::size_t i)
 {
-    return static_cast<int>(i * 7 + 3);
+    return static_cast<int>(i * 7 + 3); // distinct for every index
 }
 
 template <typename T>
@@ -574,9 +574,9 @@ struct CopyRange
     }
 };
 
-static void custom_range_checks(std::size_t maxlen)
+static void custom_range_checks(const std::vector<std::size_t>& lengths)
 {
-    for (std::size_t n = 0; n <= maxlen; ++n)
+    for (std::size_t n : lengths)
     {
         CopyRange c{ n };
         std::size_t i = 0;
@@ -703,40 +703,46 @@ int main(int argc, char** argv)
 {
     init();
     std::size_t maxlen = argc > 1 ? std::strtoull(argv[1], nullptr, 10) : 5;
+    // lengths: 0..maxlen plus every further length given on the command line
+    std::vector<std::size_t> lengths;
+    for (std::size_t n = 0; n <= maxlen; ++n)
+        lengths.push_back(n);
+    for (int i = 2; i < argc; ++i)
+        lengths.push_back(std::strtoull(argv[i], nullptr, 10));
     kind_case("std::vector", [&] {
-        for (std::size_t n = 0; n <= maxlen; ++n)
+        for (std::size_t n : lengths)
         {
             enum_checks<std::vector<int>>("std::vector", n);
             rev_checks<std::vector<int>>("std::vector", n);
         }
     });
     kind_case("std::list", [&] {
-        for (std::size_t n = 0; n <= maxlen; ++n)
+        for (std::size_t n : lengths)
         {
             enum_checks<std::list<int>>("std::list", n);
             rev_checks<std::list<int>>("std::list", n);
         }
     });
     kind_case("std::deque", [&] {
-        for (std::size_t n = 0; n <= maxlen; ++n)
+        for (std::size_t n : lengths)
         {
             enum_checks<std::deque<int>>("std::deque", n);
             rev_checks<std::deque<int>>("std::deque", n);
         }
     });
     kind_case("std::map", [&] {
-        for (std::size_t n = 0; n <= maxlen; ++n)
+        for (std::size_t n : lengths)
         {
             enum_checks<std::map<int, int>>("std::map", n);
             rev_checks<std::map<int, int>>("std::map", n);
         }
     });
     kind_case("fixed_vector:enumerate", [&] {
-        for (std::size_t n = 0; n <= maxlen; ++n)
+        for (std::size_t n : lengths)
             enum_checks<nitro::lang::fixed_vector<int>>("fixed_vector", n);
     });
     kind_case("fixed_vector:reverse", [&] {
-        for (std::size_t n = 0; n <= maxlen; ++n)
+        for (std::size_t n : lengths)
             rev_checks<nitro::lang::fixed_vector<int>>("fixed_vector", n);
     });
     kind_case("std::array", [&] { std_array_all(std::make_index_sequence<6>{}); });
@@ -752,9 +758,9 @@ int main(int argc, char** argv)
         char_array_checks<double, 2>("builtin-array<double>");
     });
     kind_case("initializer-list", [&] { ilist_checks(); });
-    kind_case("copy-deref-range", [&] { custom_range_checks(maxlen); });
+    kind_case("copy-deref-range", [&] { custom_range_checks(lengths); });
     kind_case("manual-iteration", [&] {
-        for (std::size_t n = 0; n <= maxlen; ++n)
+        for (std::size_t n : lengths)
         {
             manual_walk<std::vector<int>>("std::vector", n);
             manual_walk<std::list<int>>("std::list", n);
